@@ -50,7 +50,7 @@ func (c09Engine) Assumptions() []string {
 	}
 }
 func (c09Engine) Required(tier string) []string {
-	return []string{"hook_calls", "snapshots_compared", "compilations_repeated", "ops_on_used_vm", "crash_fired", "grid_crash_points", "budget_exceeded_on_fresh", "call_fault_fired", "processes_compared", "programs_with_map_constants", "held_programs_rechecked", "operator_overload_programs"}
+	return []string{"hook_calls", "snapshots_compared", "compilations_repeated", "ops_on_used_vm", "crash_fired", "grid_crash_points", "budget_exceeded_on_fresh", "call_fault_fired", "processes_compared", "programs_with_map_constants", "held_programs_rechecked", "operator_overload_programs", "single_scenario_processes", "ops_fed_previous_result"}
 }
 func (c09Engine) Decode(raw []byte) (interface{}, error) {
 	var sc VMScenario
@@ -75,6 +75,12 @@ func (c09Engine) Gen(seed uint64, idx int, tier string) interface{} {
 		}
 		ps := ProgSpec{Kind: "overload", Tree: t, Optimize: r.Chance(3, 4)}
 		ps.Source = ps.Src()
+		sc.Progs[r.Intn(len(sc.Progs))] = ps
+	}
+	if r.Chance(1, 4) {
+		src := []string{"PtrM(1)", "PtrM(A) + 1", "index + 1", "not info"}[r.Intn(4)]
+		ps := ProgSpec{Kind: "probe", Raw: src, Optimize: true}
+		ps.Source = src
 		sc.Progs[r.Intn(len(sc.Progs))] = ps
 	}
 	return sc
@@ -225,6 +231,8 @@ func (c09Engine) Shrinks(sci interface{}) []interface{} {
 	return out
 }
 
+var repDependentProbe = map[string]bool{"PtrM(1)": true, "PtrM(A) + 1": true, "index + 1": true, "not info": true}
+
 // dumpMain: verifsim dump <prop> <tier> <seed> <count> — prints one line per
 // scenario with the digests of its compiled programs (used across processes).
 func dumpMain(args []string) int {
@@ -234,8 +242,12 @@ func dumpMain(args []string) int {
 	tier := args[1]
 	seed, _ := strconv.ParseUint(args[2], 10, 64)
 	n, _ := strconv.Atoi(args[3])
+	from := 0
+	if len(args) > 4 { // dump <prop> <tier> <seed> <to> <from>
+		from, _ = strconv.Atoi(args[4])
+	}
 	e := c09Engine{}
-	for i := 0; i < n; i++ {
+	for i := from; i < n; i++ {
 		sc := e.Gen(DeriveSeed(seed, "C09", i), i, tier).(*VMScenario)
 		fmt.Printf("%d %s\n", i, strings.Join(progDigests(sc), " "))
 	}
@@ -244,7 +256,7 @@ func dumpMain(args []string) int {
 
 // PostBatch: fresh processes with the same seed must compute the same programs.
 func (c09Engine) PostBatch(tier string, seed uint64, ctx *RunCtx) []*Violation {
-	procs, n := 8, 96
+	procs, n := 8, 160
 	if tier == "thorough" {
 		procs, n = 32, 600
 	}
@@ -275,6 +287,70 @@ func (c09Engine) PostBatch(tier string, seed uint64, ctx *RunCtx) []*Violation {
 	ctx.Evals += procs * n
 	var viols []*Violation
 	ref := strings.Split(outs[0], "\n")
+	// Process history: the batch processes compile scenarios 0..n-1 one after the
+	// other. A scenario compiled ALONE in a fresh process must give the same
+	// programs (nothing an earlier compilation left behind may matter).
+	singles := 24
+	if tier == "thorough" {
+		singles = 120
+	}
+	type sres struct {
+		i   int
+		out string
+		err error
+	}
+	sch := make(chan sres, singles)
+	sem := make(chan struct{}, 16)
+	// prefer scenarios with a representation-dependent probe (what compiles there must
+	// depend on the representation alone), then spread over the batch; never scenario 0
+	var picks []int
+	seen := map[int]bool{}
+	for i := 1; i < n && len(picks) < singles*2/3; i++ {
+		sc := c09Engine{}.Gen(DeriveSeed(seed, "C09", i), i, tier).(*VMScenario)
+		for _, p := range sc.Progs {
+			if p.Tree == nil && repDependentProbe[p.Raw] && !seen[i] {
+				seen[i] = true
+				picks = append(picks, i)
+			}
+		}
+	}
+	for k := 0; len(picks) < singles && k < 4*singles; k++ {
+		i := 1 + (k*(n-1))/(4*singles)
+		if !seen[i] {
+			seen[i] = true
+			picks = append(picks, i)
+		}
+	}
+	singles = len(picks)
+	for _, i := range picks {
+		go func(i int) {
+			sem <- struct{}{}
+			defer func() { <-sem }()
+			cmd := exec.Command(self, "dump", "C09", tier, strconv.FormatUint(seed, 10), strconv.Itoa(i+1), strconv.Itoa(i))
+			b, err := cmd.Output()
+			sch <- sres{i, strings.TrimSpace(string(b)), err}
+		}(i)
+	}
+	for k := 0; k < singles; k++ {
+		r := <-sch
+		if r.err != nil {
+			infra("C09 single-scenario dump failed: %v", r.err)
+		}
+		ctx.Counters["single_scenario_processes"]++
+		ctx.Evals++
+		if r.i < len(ref) && r.out != ref[r.i] && len(viols) == 0 {
+			e := c09Engine{}
+			sc := e.Gen(DeriveSeed(seed, "C09", r.i), r.i, tier).(*VMScenario)
+			f := strings.Fields(r.out)
+			if len(f) > 1 {
+				sc.CrossProcess = f[1:]
+			}
+			sc.Ops = nil
+			viols = append(viols, &Violation{Property: "C09", Engine: e.Name(), Class: "C09/program-depends-on-process-history",
+				Detail: fmt.Sprintf("scenario %d compiled alone in a fresh process gives program digests %q; compiled after scenarios 0..%d in one process it gives %q (same sources, same options)", r.i, r.out, r.i-1, ref[r.i]),
+				Seed:   seed, Index: r.i, Scenario: mustJSON(sc), Log: []string{"alone: " + r.out, "after history: " + ref[r.i]}, LogDigest: Digest(r.out + ref[r.i])})
+		}
+	}
 	for p := 1; p < procs && len(viols) == 0; p++ {
 		lines := strings.Split(outs[p], "\n")
 		for li := range ref {
